@@ -166,6 +166,10 @@ def _binding(fi, name):
 
 def _env_dict(fi):
     ds = [a for a in q.walk_body(fi.node) if isinstance(a, ast.Assign) and isinstance(a.value, ast.Dict) and len(a.value.keys) >= 4 and isinstance(a.targets[0], ast.Name)]
+    for a in q.walk_body(fi.node):   # annotated form: environ: dict[str, Any] = {...}
+        if isinstance(a, ast.AnnAssign) and isinstance(a.value, ast.Dict) and len(a.value.keys) >= 4 and isinstance(a.target, ast.Name):
+            a.targets = [a.target]
+            ds.append(a)
     if len(ds) != 1:
         raise AnalysisError("C47: environ dict literal not found (unknown idiom)")
     a = ds[0]
@@ -290,11 +294,13 @@ def rule_headers(ck, fi):
             dynamic += 1
         stores.setdefault(q.unparse(ke), []).append((nd, s))
     pm = q.parent_map(fi.node)
+    deferred = []
     for key, hname in (("CONTENT_TYPE", "Content-Type"), ("CONTENT_LENGTH", "Content-Length")):
         got = stores.get(repr(key), [])
         n += 1
         if not got and dynamic > 1:
-            raise AnalysisError("C47.headers: environ is written under computed keys; cannot tell whether %s is set" % key)
+            deferred.append(key)
+            continue
         ck.ob("C47.headers", fi, fi.node, len(got) >= 1, "environ[%r] is set from the %s header" % (key, hname), construct="environ[%r] store" % key)
         for nd, s in got:
             a = pm.get(s)
@@ -308,11 +314,38 @@ def rule_headers(ck, fi):
     for l in loops:
         kname = l.target.elts[0].id if isinstance(l.target, ast.Tuple) else None
         vname = l.target.elts[1].id if isinstance(l.target, ast.Tuple) else None
-        sts = [s for s in l.body if isinstance(s, ast.Assign) and isinstance(s.targets[0], ast.Subscript) and q.dotted(s.targets[0].value) == envname]
+        sts = [s for st0 in l.body for s in q.walk_local(st0) if isinstance(s, ast.Assign) and isinstance(s.targets[0], ast.Subscript) and q.dotted(s.targets[0].value) == envname]
         ck.floor("C47.headers", len(sts), 1, "environ stores in the header loop")
+        CONTENT = {"content_type", "content_length", "content-type", "content-length"}
         for s in sts:
             ke = expand(fi, s.targets[0].slice)
             ok_prefix = isinstance(ke, ast.BinOp) and isinstance(ke.op, ast.Add) and q.is_const(ke.left, "HTTP_")
+            if not ok_prefix:
+                # a header stored without the HTTP_ prefix: allowed only for the two CGI content headers
+                restricted = unknown = False
+                for nd in fi.cfg.nodes_for(s):
+                    for t, pol in facts[nd.id]:
+                        if t.startswith("@") or not pol:
+                            continue
+                        try:
+                            e = ast.parse(t, mode="eval").body
+                        except SyntaxError:
+                            continue
+                        if isinstance(e, ast.Compare) and len(e.ops) == 1 and isinstance(e.ops[0], (ast.In, ast.Eq)) and kname in q.names_in(expand(fi, e.left)):
+                            rhs = e.comparators[0]
+                            if isinstance(rhs, ast.Name) and rhs.id in fi.module.assigns:
+                                rhs = fi.module.assigns[rhs.id]
+                            vals = [x.value for x in (rhs.elts if isinstance(rhs, (ast.Tuple, ast.List, ast.Set)) else [rhs]) if isinstance(x, ast.Constant) and isinstance(x.value, str)]
+                            n_el = len(rhs.elts) if isinstance(rhs, (ast.Tuple, ast.List, ast.Set)) else 1
+                            if vals and len(vals) == n_el:
+                                restricted = restricted or all(v.lower() in CONTENT for v in vals)
+                            else:
+                                unknown = True
+                if unknown and not restricted:
+                    raise AnalysisError("C47.headers: the test selecting headers stored without the HTTP_ prefix is not recognised")
+                n += 1
+                ck.ob("C47.headers", fi, s, restricted, "a request header is stored in environ without the HTTP_ prefix only if it is Content-Type or Content-Length (any other header, e.g. Content-Encoding, must appear as HTTP_<NAME>)")
+                continue
             meths = [c.func.attr for c in ast.walk(ke) if isinstance(c, ast.Call) and isinstance(c.func, ast.Attribute)]
             repl = [c for c in ast.walk(ke) if isinstance(c, ast.Call) and isinstance(c.func, ast.Attribute) and c.func.attr == "replace" and [getattr(a, "value", None) for a in c.args] == ["-", "_"]]
             n += 3
@@ -320,6 +353,8 @@ def rule_headers(ck, fi):
             ck.ob("C47.headers", fi, s, bool(repl), "'-' in the header name becomes '_'")
             ck.ob("C47.headers", fi, s, "upper" in meths and kname in q.names_in(ke), "the header name is upper-cased")
             ck.ob("C47.headers", fi, s, q.dotted(expand(fi, s.value)) == vname, "the header value is passed unchanged")
+    if deferred and not any(v.rule == "C47.headers" for v in ck.violations):
+        raise AnalysisError("C47.headers: environ is written under computed keys; cannot tell whether %s is set" % "/".join(deferred))
     return n
 
 
@@ -671,6 +706,7 @@ MUTANTS = [
     ("PATH_INFO dropped", _e(_dict_drop("PATH_INFO")), "C47.cgi-keys"),
     ("QUERY_STRING taken from the full uri", _e(_dict_value("QUERY_STRING", "request.uri")), "C47.cgi-keys"),
     ("Content-Type popped without presence test (KeyError when absent)", _e(replace_stmt(lambda st: isinstance(st, ast.If) and "'Content-Type' in" in _src(st.test), lambda st: st.body)), ("C47.environ-total", "C47.headers")),
+    ("seeded C47-adv4: every CONTENT_* header stored without the HTTP_ prefix (HTTP_CONTENT_ENCODING lost)", _e(lambda root: _content_prefix(root)), "C47.headers"),
     ("HTTP_ keys not upper-cased", _e(replace_expr(lambda n: isinstance(n, ast.Call) and q.call_attr(n) == "upper", lambda n: n.func.value)), "C47.headers"),
     ("HTTP_ keys keep '-'", _e(replace_expr(lambda n: isinstance(n, ast.Call) and q.call_attr(n) == "replace", lambda n: n.func.value)), "C47.headers"),
     ("response: application header names not lower-cased before the absence tests", _e(replace_expr(lambda n: isinstance(n, ast.Call) and q.call_attr(n) == "lower", lambda n: n.func.value), HR), "C47.response"),
@@ -709,3 +745,22 @@ def _empty_sentinel(root):
             node.test = parse_expr("not chunk")
             done += 1
     return done == 2
+
+
+def _content_prefix(root):
+    body = root.body
+    idx = [i for i, st in enumerate(body) if isinstance(st, ast.If) and "in request.headers" in _src(st.test)]
+    loops = [i for i, st in enumerate(body) if isinstance(st, ast.For) and "request.headers.items" in _src(st.iter)]
+    if len(idx) != 2 or len(loops) != 1:
+        return False
+    new = ast.parse(
+        "for key, value in request.headers.items():\n"
+        "    name = key.replace('-', '_').upper()\n"
+        "    if name.startswith('CONTENT_'):\n"
+        "        environ[name] = value\n"
+        "    else:\n"
+        "        environ['HTTP_' + name] = value\n").body
+    body[loops[0]:loops[0] + 1] = new
+    for i in sorted(idx, reverse=True):
+        del body[i]
+    return True
